@@ -1,14 +1,16 @@
-"""Discharge VCs: z3 (in a process pool, SMT-LIB text as the interchange), cvc5 CLI for z3's unknowns."""
+"""Discharge VCs: z3 5.1.0 CLI (hard per-query timeout, one process per query, 16 at a time), cvc5 CLI for
+z3's unknowns. SMT-LIB text is the interchange format."""
 from __future__ import annotations
 import os
 import subprocess
 import tempfile
 import time
-from concurrent.futures import ProcessPoolExecutor
+from concurrent.futures import ThreadPoolExecutor
 from typing import List, Tuple
 import z3
 
 CVC5 = "/usr/bin/cvc5"
+Z3CLI = "/usr/local/bin/z3-new" if os.path.exists("/usr/local/bin/z3-new") else "/usr/bin/z3"
 
 
 def vc_to_smt2(hyps, negated_goal, axioms) -> str:
@@ -21,40 +23,53 @@ def vc_to_smt2(hyps, negated_goal, axioms) -> str:
     return s.to_smt2()
 
 
-def _solve_z3(args) -> Tuple[str, float, str]:
-    smt2, timeout_ms = args
+def _run(cmd, timeout_s):
     t0 = time.time()
     try:
-        ctx = z3.Context()
-        s = z3.Solver(ctx=ctx)
-        s.set("timeout", int(timeout_ms))
-        s.from_string(smt2)
-        r = s.check()
-        res = str(r)
-        reason = s.reason_unknown() if res == "unknown" else ""
-    except z3.Z3Exception as e:
-        res, reason = "error", str(e)
-    return res, time.time() - t0, reason
+        p = subprocess.run(cmd, capture_output=True, text=True, timeout=timeout_s + 3)
+        out = (p.stdout or "").strip().splitlines()
+        res = out[0].strip() if out else "unknown"
+        if res not in ("sat", "unsat", "unknown"):
+            reason = (res + " " + (p.stderr or ""))[:200]
+            res = "unknown" if res == "timeout" else "error"
+            return res, time.time() - t0, reason
+        return res, time.time() - t0, ""
+    except subprocess.TimeoutExpired:
+        return "unknown", time.time() - t0, "timeout(hard)"
 
 
-def solve_cvc5(smt2: str, timeout_s: float, scratch: str) -> Tuple[str, float, str]:
-    t0 = time.time()
+def solve_one(name, smt2, z3_timeout, cvc5_timeout, scratch, use_cvc5=True):
     os.makedirs(scratch, exist_ok=True)
     fd, path = tempfile.mkstemp(suffix=".smt2", dir=scratch)
     try:
         with os.fdopen(fd, "w") as f:
-            # z3 prints (set-info :status ...) and uses logic-less scripts; cvc5 needs a logic
-            f.write("(set-logic ALL)\n" + smt2)
-        try:
-            p = subprocess.run([CVC5, "--strings-exp", f"--tlimit={int(timeout_s * 1000)}", path],
-                               capture_output=True, text=True, timeout=timeout_s + 5)
-            out = (p.stdout or "").strip().splitlines()
-            res = out[0].strip() if out else "unknown"
-            if res not in ("sat", "unsat", "unknown"):
-                res = "unknown"
-            return res, time.time() - t0, (p.stderr or "")[:200]
-        except subprocess.TimeoutExpired:
-            return "unknown", time.time() - t0, "timeout"
+            f.write(smt2)
+        # portfolio in sequence: z3 briefly, then cvc5, then z3 with the full budget
+        first = min(2.0, z3_timeout)
+        res, dt, reason = _run([Z3CLI, "-smt2", f"-T:{max(1, int(first))}", path], first)
+        out = {"result": res, "solver": "z3-5.1.0", "time_s": round(dt, 3), "reason": reason}
+        cvc_ok = use_cvc5 and os.path.exists(CVC5) and "seq.nth_u" not in smt2 and "FloatingPoint" not in smt2
+        if res in ("unknown", "error") and cvc_ok:
+            cpath = path + ".cvc5.smt2"
+            with open(cpath, "w") as f:
+                f.write("(set-logic ALL)\n" + smt2)
+            try:
+                r2, dt2, reason2 = _run([CVC5, "--strings-exp", f"--tlimit={int(cvc5_timeout * 1000)}", cpath], cvc5_timeout)
+            finally:
+                os.unlink(cpath)
+            if r2 in ("sat", "unsat"):
+                out = {"result": r2, "solver": "cvc5-1.0.3", "time_s": round(dt + dt2, 3), "reason": "z3(2s): " + (reason or res)}
+                return name, out
+            out["time_s"] = round(dt + dt2, 3)
+            out["reason"] = f"z3: {reason or res} | cvc5: {r2} {reason2}"[:300]
+        if out["result"] in ("unknown", "error") and z3_timeout > first:
+            res, dt3, reason3 = _run([Z3CLI, "-smt2", f"-T:{max(1, int(z3_timeout))}", path], z3_timeout)
+            out["time_s"] = round(out["time_s"] + dt3, 3)
+            if res in ("sat", "unsat"):
+                out["result"], out["solver"], out["reason"] = res, "z3-5.1.0", "after cvc5 unknown"
+            else:
+                out["reason"] = (out["reason"] + f" | z3 full: {reason3 or res}")[:300]
+        return name, out
     finally:
         try:
             os.unlink(path)
@@ -62,28 +77,15 @@ def solve_cvc5(smt2: str, timeout_s: float, scratch: str) -> Tuple[str, float, s
             pass
 
 
-def discharge(items: List[Tuple[str, str, float]], workers: int = 16, cvc5_timeout: float = 20.0,
-              scratch: str = "/verif/.scratch"):
+def discharge(items: List[Tuple[str, str, float]], workers: int = 16, cvc5_timeout: float = 10.0,
+              scratch: str = "/verif/.scratch", use_cvc5=True):
     """items: (name, smt2, z3_timeout_s). returns {name: dict(result, solver, time_s, reason)}"""
     out = {}
     if not items:
         return out
-    with ProcessPoolExecutor(max_workers=min(workers, max(1, len(items)))) as ex:
-        results = list(ex.map(_solve_z3, [(s, t * 1000) for _, s, t in items], chunksize=1))
-    retry = []
-    for (name, smt2, t), (res, dt, reason) in zip(items, results):
-        out[name] = {"result": res, "solver": "z3-" + z3.get_version_string(), "time_s": round(dt, 3), "reason": reason}
-        if res in ("unknown", "error"):
-            retry.append((name, smt2))
-    if retry and os.path.exists(CVC5):
-        with ProcessPoolExecutor(max_workers=min(workers, len(retry))) as ex:
-            futs = [ex.submit(solve_cvc5, s, cvc5_timeout, scratch) for _, s in retry]
-            for (name, _), f in zip(retry, futs):
-                res, dt, reason = f.result()
-                if res in ("sat", "unsat"):
-                    out[name] = {"result": res, "solver": "cvc5-1.0.3", "time_s": round(out[name]["time_s"] + dt, 3),
-                                 "reason": "z3: " + out[name]["reason"]}
-                else:
-                    out[name]["time_s"] = round(out[name]["time_s"] + dt, 3)
-                    out[name]["reason"] += " | cvc5: unknown " + reason
+    with ThreadPoolExecutor(max_workers=workers) as ex:
+        futs = [ex.submit(solve_one, n, s, t, cvc5_timeout, scratch, use_cvc5) for n, s, t in items]
+        for f in futs:
+            n, r = f.result()
+            out[n] = r
     return out
